@@ -4,7 +4,20 @@ CONSTANTS
   D <- D_full
   L <- L_full
   BASE <- BASE_full
-  T8ENC <- T8_full
+  T8ENC <- T8ENC_full
+  SQRT_M1 <- SQRT_M1_full
+  EXP_P58 <- EXP_P58_full
+  EXP_QR <- EXP_QR_full
+  EXP_P38 <- EXP_P38_full
+  BASEPT <- BASEPT_full
+  T8PT <- T8PT_full
+  D2 <- D2_full
+  SQRT_AD_MINUS_ONE <- SQRT_AD_MINUS_ONE_full
+  INVSQRT_A_MINUS_D <- INVSQRT_A_MINUS_D_full
+  ONE_MINUS_D_SQ <- ONE_MINUS_D_SQ_full
+  D_MINUS_ONE_SQ <- D_MINUS_ONE_SQ_full
+  MONT_A <- MONT_A_full
+  APLUS2_OVER_FOUR <- APLUS2_OVER_FOUR_full
 INIT Init
 NEXT Next
 INVARIANT Report
